@@ -1,6 +1,6 @@
 (** Proofs about Model/KK.v: Karmarkar-Karp (kk) and complete Karmarkar-Karp (ckk, generator). *)
 From Prtpy Require Import Base.Prelude Base.Perms Model.Binner Model.KK Spec.Partition
-  Proofs.BaseLemmas Proofs.BinnerLemmas.
+  Proofs.BaseLemmas Proofs.BinnerLemmas Proofs.EnumProofs.
 From Coq Require Import Sorting.Sorted ZifyBool.
 
 Section KKProofs.
@@ -658,7 +658,7 @@ Section KKProofs.
            (snd e :: ckk_yields st) (fst e =? 0) (ckk_nodes st).
 
   Definition children (rest : @heap A) (b1 b2 : bins A) : list (@heap A) :=
-    map (heap_push rest) (all_combinations nameof true b1 b2).
+    map (heap_push rest) (ckk_children nameof true b1 b2).
 
   Lemma ckk_explore_eq fuel mode k h st :
     ckk_explore nameof true fuel mode k h st =
@@ -681,6 +681,16 @@ Section KKProofs.
     exists comb, In comb (all_combinations nameof true b1 b2) /\ c = heap_push rest comb.
   Proof.
     intros H. apply in_rev in H. apply sort_asc_In in H. unfold children in H.
+    apply in_map_iff in H. destruct H as (comb & E & Hc). exists comb.
+    split; [apply ckk_children_sound; exact Hc|symmetry; exact E].
+  Qed.
+
+  (** the same, keeping the information that the combination is a child (survived the de-duplication by sums) *)
+  Lemma children_in_ckk rest b1 b2 c :
+    In c (rev (sort_asc topdiff (children rest b1 b2))) ->
+    exists comb, In comb (ckk_children nameof true b1 b2) /\ c = heap_push rest comb.
+  Proof.
+    intros H. apply in_rev in H. apply sort_asc_In in H. unfold children in H.
     apply in_map_iff in H. destruct H as (comb & E & Hc). exists comb. split; [exact Hc|symmetry; exact E].
   Qed.
 
@@ -688,8 +698,8 @@ Section KKProofs.
   Proof.
     intros E. apply (f_equal (@length _)) in E.
     rewrite rev_length, sort_asc_length in E. unfold children in E. rewrite map_length in E.
-    pose proof (all_combinations_nonempty b1 b2) as N.
-    destruct (all_combinations nameof true b1 b2); [congruence|discriminate].
+    pose proof (ckk_children_nonempty nameof true b1 b2 (all_combinations_nonempty b1 b2)) as N.
+    destruct (ckk_children nameof true b1 b2); [congruence|discriminate].
   Qed.
 
   (** ---- generic preservation principle for ckk_explore ---- *)
@@ -1000,11 +1010,12 @@ Section KKProofs.
 
   (** ---- 7. the pruning bound is admissible (C13 / C02 ingredient) ---- *)
 
-  (** h' is reachable from h by repeated CKK expansions *)
+  (** h' is reachable from h by repeated CKK expansions (the children of a node are its combinations
+      de-duplicated by their sums: [ckk_children]) *)
   Inductive expands : @heap A -> @heap A -> Prop :=
   | expands_refl h : expands h h
   | expands_step e1 e2 rest c h' :
-      In c (all_combinations nameof true (snd e1) (snd e2)) ->
+      In c (ckk_children nameof true (snd e1) (snd e2)) ->
       expands (heap_push rest c) h' ->
       expands (e1 :: e2 :: rest) h'.
 
@@ -1032,7 +1043,7 @@ Section KKProofs.
   Lemma expands_full k its h h' : expands h h' -> heap_full k its h -> heap_full k its h'.
   Proof.
     induction 1 as [h|e1 e2 rest c h' Hc He IH]; intros Hf; [exact Hf|].
-    apply IH. eapply child_full; eassumption.
+    apply ckk_children_sound in Hc. apply IH. eapply child_full; eassumption.
   Qed.
 
   (** the total of all sums in the heap is the total value of the items *)
@@ -1188,6 +1199,7 @@ Section KKProofs.
     dom (heap_flat_sums h) (heap_flat_sums h').
   Proof.
     induction 1 as [h|e1 e2 rest c h' Hc He IH]; intros Hh Hpos; [apply dom_refl|].
+    apply ckk_children_sound in Hc.
     eapply dom_trans; [eapply expand_dom; eassumption|].
     apply IH; [eapply ckk_child_inv; eassumption|exact Hpos].
   Qed.
@@ -1212,7 +1224,7 @@ Section KKProofs.
 
   Lemma expands_inv h h' : expands h h' ->
     h' = h \/ exists e1 e2 rest c, h = e1 :: e2 :: rest /\
-                 In c (all_combinations nameof true (snd e1) (snd e2)) /\
+                 In c (ckk_children nameof true (snd e1) (snd e2)) /\
                  expands (heap_push rest c) h'.
   Proof.
     intros H. destruct H as [h|e1 e2 rest c h' Hc He]; [left; reflexivity|].
@@ -1230,7 +1242,7 @@ Section KKProofs.
   Qed.
 
   Lemma expands_cons2_leaf_inv e1 e2 rest e : expands (e1 :: e2 :: rest) [e] ->
-    exists c, In c (all_combinations nameof true (snd e1) (snd e2)) /\
+    exists c, In c (ckk_children nameof true (snd e1) (snd e2)) /\
               expands (heap_push rest c) [e].
   Proof.
     intros H. destruct (expands_inv _ _ H) as [E|(x1 & x2 & r & c & E & Hc & He)]; [discriminate E|].
